@@ -7,6 +7,7 @@ Imports only Model/Gen/Spec (core Lean), so it links as a native executable.
 -/
 import Precis.Model.Profiles
 import Precis.Model.Csv
+import Precis.Model.Generators
 import Precis.Spec.Verdict
 open Precis Precis.Proto
 
@@ -114,6 +115,36 @@ def fmtCsvRow (r : Csv.Row) : String :=
     | .tuple p q => csvPropName p ++ "+" ++ csvPropName q
   "ok:" ++ cps ++ ";" ++ props ++ ";" ++ fmtStr r.desc
 
+def hexU (n : Nat) : String := String.ofList ((Nat.toDigits 16 n).map Char.toUpper)
+
+def fmtCps : Cps → String
+  | .single c => "S" ++ hexU c
+  | .range a b => "R" ++ hexU a ++ "-" ++ hexU b
+
+def fmtSet (l : List Cps) : String := "[" ++ ",".intercalate (l.map fmtCps) ++ "]"
+
+/-- `ucdgen|cp:kind:gc:ccc:bidi:width;…` → every table the generators emit, in canonical text -/
+def ucdgenOp (rowsS : String) : String :=
+  let raw : List Gen'.RawRow := ((rowsS.splitOn ";").filter (· ≠ "")).map (fun r =>
+    match r.splitOn ":" with
+    | [cp, kind, gc, ccc, bidi, w] =>
+      { cp := parseHex cp, kind := (if kind == "f" then .first else if kind == "l" then .last else .plain),
+        gc := gc, ccc := ccc.toNat!, bidi := bidi, width := if w == "-" then none else some (parseHex w) }
+    | _ => default)
+  match Gen'.parseUnicodeData raw with
+  | none => "err:parse"
+  | some rows =>
+    let cats := ["Lu", "Ll", "Zs", "Mn", "Cc"]
+    let sets := cats.map (fun c => (c, Gen'.gcTable c rows))
+    if sets.any (fun x => x.2.isNone) then "err:set" else
+    match Gen'.viramaTable rows, Gen'.unassignedTable rows, Gen'.bidiTable rows with
+    | some v, some u, some b =>
+      ";".intercalate (sets.map (fun x => "cat_" ++ x.1.toLower ++ "=" ++ fmtSet (x.2.getD [])))
+        ++ ";unassigned=" ++ fmtSet u ++ ";virama=" ++ fmtSet v
+        ++ ";width=[" ++ ",".intercalate ((Gen'.widthTable rows).map (fun e => fmtCps e.1 ++ ">" ++ hexU e.2)) ++ "]"
+        ++ ";bidi=[" ++ ",".intercalate (b.map (fun e => fmtCps e.1 ++ ":" ++ e.2)) ++ "]"
+    | _, _, _ => "err:gen"
+
 def runModel (line : String) : String :=
   let f := (line.splitOn "|").toArray
   let arg (i : Nat) : String := f.getD i ""
@@ -168,6 +199,7 @@ def runModel (line : String) : String :=
      | p, "enforce" => fmtRes ((profByName p).enforce (parseStr (arg 3)))
      | _, _ => "PROTOCOL-ERROR")
   | "forbidden" => "-"
+  | "ucdgen" => ucdgenOp (arg 1)
   | "csvrow" => (match Csv.parseLine (parseStr (arg 1)) with | some r => fmtCsvRow r | none => "err")
   | "csvfile" =>
     "[" ++ " / ".intercalate ((Csv.parseFile (parseStr (arg 2))).map (fun it =>
@@ -253,8 +285,6 @@ def evalFn (name : String) (cp : Nat) : Option String :=
   | "spec_is_precis_ignorable_property" => some (bS (Spec.defaultIgnorable63 cp || Spec.nonchar63 cp))
   | "spec_exception" => some (optDpv (Spec.exceptions cp))
   | _ => none
-
-def hexU (n : Nat) : String := String.ofList ((Nat.toDigits 16 n).map Char.toUpper)
 
 partial def rleRange (out : IO.FS.Stream) (name : String) (lo hi : Nat) : IO Unit := do
   let mut cur : Option (Nat × Nat × String) := none
